@@ -6,8 +6,8 @@
    multiplication algorithms, modular inverse, the 10x26 / 8x32 / struct-int128 / asm configurations,
    SHA-256/HMAC/RFC 6979) is tied by the differential correspondence of ./check C05 on a build matrix. *)
 From Coq Require Import ZArith List Bool.
-Require Import Kernel.CSem Kernel.Field5x52 Kernel.Field5x52Sqr Kernel.CtPrimitives Kernel.FieldNormalize Kernel.Scalar4x64 Kernel.ScalarMul512 Kernel.ScalarSqr512 Kernel.ScalarReduce512 Kernel.Scalar8x32Check Kernel.Scalar8x32Mul512 Kernel.Scalar8x32Reduce512 Kernel.Scalar8x32Mul Kernel.FieldPrims Kernel.ScalarMul4x64 Kernel.ScalarMul Kernel.ScalarAdd Kernel.FieldNormalize2 Kernel.MorePrims Kernel.FieldSetB32.
-Require Import Gen.fe_mul_inner Gen.fe_sqr_inner Gen.scalar_cmov Gen.fe_impl_cmov Gen.fe_impl_normalize Gen.scalar_check_overflow Gen.scalar_is_high Gen.scalar_mul_512 Gen.scalar_sqr_512 Gen.scalar_reduce_512 Gen.scalar8x32_mul_512 Gen.scalar8x32_sqr_512 Gen.scalar8x32_check_overflow Gen.scalar8x32_reduce_512 Gen.scalar8x32_mul Gen.scalar8x32_sqr Gen.scalar_mul_512b Gen.scalar_sqr_512b Gen.scalar_mul Gen.scalar_sqr Gen.scalar_add Gen.scalar_half Gen.fe_impl_normalize_weak Gen.fe_impl_normalizes_to_zero Gen.fe_impl_mul_int_unchecked Gen.fe_impl_to_storage Gen.fe_impl_from_storage Gen.scalar_cond_negate Gen.fe_impl_set_b32_limit Gen.fe_impl_add Gen.fe_impl_negate_unchecked Gen.fe_impl_half Gen.scalar_negate.
+Require Import Kernel.CSem Kernel.Field5x52 Kernel.Field5x52Sqr Kernel.CtPrimitives Kernel.FieldNormalize Kernel.Scalar4x64 Kernel.ScalarMul512 Kernel.ScalarSqr512 Kernel.ScalarReduce512 Kernel.Scalar8x32Check Kernel.Scalar8x32Mul512 Kernel.Scalar8x32Reduce512 Kernel.Scalar8x32Mul Kernel.FieldPrims Kernel.ScalarMul4x64 Kernel.ScalarMul Kernel.ScalarAdd Kernel.FieldNormalize2 Kernel.MorePrims Kernel.FieldSetB32 Kernel.Field10x26.
+Require Import Gen.fe_mul_inner Gen.fe_sqr_inner Gen.scalar_cmov Gen.fe_impl_cmov Gen.fe_impl_normalize Gen.scalar_check_overflow Gen.scalar_is_high Gen.scalar_mul_512 Gen.scalar_sqr_512 Gen.scalar_reduce_512 Gen.scalar8x32_mul_512 Gen.scalar8x32_sqr_512 Gen.scalar8x32_check_overflow Gen.scalar8x32_reduce_512 Gen.scalar8x32_mul Gen.scalar8x32_sqr Gen.scalar_mul_512b Gen.scalar_sqr_512b Gen.scalar_mul Gen.scalar_sqr Gen.scalar_add Gen.scalar_half Gen.fe_impl_normalize_weak Gen.fe_impl_normalizes_to_zero Gen.fe_impl_mul_int_unchecked Gen.fe_impl_to_storage Gen.fe_impl_from_storage Gen.scalar_cond_negate Gen.fe_impl_set_b32_limit Gen.fe10x26_mul_inner Gen.fe10x26_sqr_inner Gen.fe_impl_add Gen.fe_impl_negate_unchecked Gen.fe_impl_half Gen.scalar_negate.
 Import ListNotations.
 Local Open Scope Z_scope.
 
@@ -143,6 +143,22 @@ Theorem scalar8x32_sqr_correct : forall a0 a1 a2 a3 a4 a5 a6 a7,
   scalar8x32_sqr_k a0 a1 a2 a3 a4 a5 a6 a7 Q.
 Proof. exact Kernel.Scalar8x32Mul.scalar8x32_sqr_correct. Qed.
 Print Assumptions scalar8x32_sqr_correct.
+(* The 10x26 field (src/field_10x26_impl.h, compiled on 32-bit targets and with USE_FORCE_WIDEMUL_INT64): multiplication and squaring,
+   for ALL limb values within the magnitude contract: no 64-bit accumulator wraps, output limbs in range, value = product mod p. *)
+Theorem fe10x26_mul_inner_correct : forall a0 a1 a2 a3 a4 a5 a6 a7 a8 a9 b0 b1 b2 b3 b4 b5 b6 b7 b8 b9,
+  0 <= a0 < 2^30 -> 0 <= a1 < 2^30 -> 0 <= a2 < 2^30 -> 0 <= a3 < 2^30 -> 0 <= a4 < 2^30 -> 0 <= a5 < 2^30 -> 0 <= a6 < 2^30 -> 0 <= a7 < 2^30 -> 0 <= a8 < 2^30 -> 0 <= a9 < 2^26 -> 0 <= b0 < 2^30 -> 0 <= b1 < 2^30 -> 0 <= b2 < 2^30 -> 0 <= b3 < 2^30 -> 0 <= b4 < 2^30 -> 0 <= b5 < 2^30 -> 0 <= b6 < 2^30 -> 0 <= b7 < 2^30 -> 0 <= b8 < 2^30 -> 0 <= b9 < 2^26 ->
+  fe10x26_mul_inner_k a0 a1 a2 a3 a4 a5 a6 a7 a8 a9 b0 b1 b2 b3 b4 b5 b6 b7 b8 b9 (fun r0 r1 r2 r3 r4 r5 r6 r7 r8 r9 =>
+    (0 <= r0 < 2^26 /\ 0 <= r1 < 2^26 /\ 0 <= r2 < 2^27 /\ 0 <= r3 < 2^26 /\ 0 <= r4 < 2^26 /\ 0 <= r5 < 2^26 /\ 0 <= r6 < 2^26 /\ 0 <= r7 < 2^26 /\ 0 <= r8 < 2^26 /\ 0 <= r9 < 2^22) /\
+    (val10 r0 r1 r2 r3 r4 r5 r6 r7 r8 r9 - val10 a0 a1 a2 a3 a4 a5 a6 a7 a8 a9 * val10 b0 b1 b2 b3 b4 b5 b6 b7 b8 b9) mod P256 = 0).
+Proof. exact Kernel.Field10x26.fe10x26_mul_inner_correct. Qed.
+Print Assumptions fe10x26_mul_inner_correct.
+Theorem fe10x26_sqr_inner_correct : forall a0 a1 a2 a3 a4 a5 a6 a7 a8 a9,
+  0 <= a0 < 2^30 -> 0 <= a1 < 2^30 -> 0 <= a2 < 2^30 -> 0 <= a3 < 2^30 -> 0 <= a4 < 2^30 -> 0 <= a5 < 2^30 -> 0 <= a6 < 2^30 -> 0 <= a7 < 2^30 -> 0 <= a8 < 2^30 -> 0 <= a9 < 2^26 ->
+  fe10x26_sqr_inner_k a0 a1 a2 a3 a4 a5 a6 a7 a8 a9 (fun r0 r1 r2 r3 r4 r5 r6 r7 r8 r9 =>
+    (0 <= r0 < 2^26 /\ 0 <= r1 < 2^26 /\ 0 <= r2 < 2^27 /\ 0 <= r3 < 2^26 /\ 0 <= r4 < 2^26 /\ 0 <= r5 < 2^26 /\ 0 <= r6 < 2^26 /\ 0 <= r7 < 2^26 /\ 0 <= r8 < 2^26 /\ 0 <= r9 < 2^22) /\
+    (val10 r0 r1 r2 r3 r4 r5 r6 r7 r8 r9 - val10 a0 a1 a2 a3 a4 a5 a6 a7 a8 a9 * val10 a0 a1 a2 a3 a4 a5 a6 a7 a8 a9) mod P256 = 0).
+Proof. exact Kernel.Field10x26.fe10x26_sqr_inner_correct. Qed.
+Print Assumptions fe10x26_sqr_inner_correct.
 (* Parsing a 32-byte big-endian string into a field element with the range check that every public-key / x-only / generator /
    commitment parser relies on: the limbs hold exactly the value, the return value is 1 exactly below p. *)
 Theorem fe_set_b32_limit_correct : forall a0 a1 a2 a3 a4 a5 a6 a7 a8 a9 a10 a11 a12 a13 a14 a15 a16 a17 a18 a19 a20 a21 a22 a23 a24 a25 a26 a27 a28 a29 a30 a31,
